@@ -1,7 +1,1221 @@
-//! C15 — stub (monitor not built yet)
-use crate::run::{Ctx, Report, Stats};
-pub fn run(_ctx: &Ctx) -> Report {
-    let mut r = Report::new(Stats::default(), "not built");
-    r.inconclusive.push("monitor-not-built".into());
-    r
+//! C15 — Vector arithmetic, reductions, norms, edits match their definitions under any history.
+//!
+//! Oracle: every library value is mapped to an exact complex rational (`CRat`) and compared with
+//! textbook definitions coded here on plain `Vec`s. The real generic code is instantiated at
+//! `Rat`, `CRat` (Copy exact complex), `ohsl::Complex<Rat>` (Clone-only impls, conj/real), `i64`
+//! (histories), and at `f64` / `Complex<f64>` on exactly representable (small dyadic) data where a
+//! certificate computed by the generator guarantees that every intermediate is exact in binary64.
+//! Inherently numerical parts (2-/p-norms, complex modulus, linspace/powspace) are judged against
+//! double-double oracles with the fixed tolerances below.
+use crate::fl::{hexf, DD, U};
+use crate::json::J;
+use crate::mon::common::{hash_str, hmix};
+use crate::rat::{CRat, Rat};
+use crate::rng::Rng;
+use crate::run::{catch, par_run, Ctx, Outcome, Report, Stats};
+use ohsl::{Cmplx, Complex, Number, Signed, Vector};
+use std::cmp::Ordering;
+use std::fmt::Debug;
+use std::ops::Neg;
+
+const TAG: u64 = 0xC15;
+
+// ---------------------------------------------------------------- fixed tolerances
+/// relative tolerance of a p-norm of n terms whose true value is N: NORM_K*(n+8+|ln N|)*u
+/// (n: summation, 8: pow/sqrt/root roundings, |ln N|: rounding of the exponent 1/p in powf(S,1/p)).
+const NORM_K: f64 = 128.0;
+/// complex modulus |z| (sqrt of an f64 sum of squares) and max-modulus norm: relative MOD_TOL
+const MOD_TOL: f64 = 256.0 * U;
+/// linspace/powspace elements: SPACE_K*(4u|b-a| + u*max(|a|,|b|)) absolute
+const SPACE_K: f64 = 128.0;
+/// strict monotonicity of a generated sequence is demanded when the true increment is at least
+/// STRICT_K*u*max(|a|,|b|) (weak monotonicity is demanded always)
+const STRICT_K: f64 = 32.0;
+/// exact-in-binary64 certificate: all intermediates are integers*2^-s below 2^EXACT_BITS
+const EXACT_BITS: f64 = 50.0;
+const MAXLEN: usize = 64;
+
+fn norm_rtol(n: usize, true_norm: f64) -> f64 {
+    let l = if true_norm > 0.0 { true_norm.ln().abs() } else { 0.0 };
+    NORM_K * (n as f64 + 8.0 + l) * U
+}
+
+// ---------------------------------------------------------------- element abstraction
+type CxR = Complex<Rat>;
+
+/// Element types the real ohsl code is instantiated at. `to_m` is the exact value.
+trait El: Clone + PartialEq + Debug + 'static {
+    const NAME: &'static str;
+    const FLOAT: bool;
+    const CAN_SORT: bool = false;
+    const CAN_RESIZE: bool = false;
+    const CAN_ASSIGN: bool = false;
+    /// exact value; None when not finite / outside the exact type's range
+    fn to_m(&self) -> Option<CRat>;
+    /// Some(x) iff the exact value is representable in the type
+    fn from_m(m: &CRat) -> Option<Self>;
+    /// identity (bit pattern) for lock-step comparison of pure data movement
+    fn id(&self) -> [u128; 4];
+    fn gen(rng: &mut Rng, flavour: u32) -> Self;
+    /// the type's own ordering (total on generated data)
+    fn pcmp(a: &Self, b: &Self) -> Ordering;
+    /// definition of the element absolute value used by abs()/norm_1() (None: numerical, judged elsewhere)
+    fn abs_m(_m: &CRat) -> Option<CRat> { None }
+    /// sort_by with comparator mode 0 (type's own order), 1 (reversed), 2 (by 1-norm magnitude: ties between distinct elements)
+    fn lib_sort_by(v: &mut Vector<Self>, mode: u8);
+    fn lib_sort(_v: &mut Vector<Self>) { unreachable!() }
+    fn lib_resize(_v: &mut Vector<Self>, _n: usize) { unreachable!() }
+    fn lib_assign(_v: &mut Vector<Self>, _x: &Self) { unreachable!() }
+    fn default_m() -> CRat { CRat::default() }
+}
+
+fn r2c(r: Rat) -> CRat { CRat::new(r, Rat::ZERO) }
+fn rid(r: &Rat) -> (u128, u128) { (r.n as u128, r.d as u128) }
+fn f64_to_rat(x: f64) -> Option<Rat> {
+    if !x.is_finite() { return None; }
+    catch(|| Rat::from_f64(x)).ok()
+}
+
+/// flavours: 0 small (many duplicates), 1 product friendly, 2 wider, 3 tiny integers (histories)
+fn small_rat(rng: &mut Rng, flavour: u32, dyadic: bool) -> Rat {
+    match flavour {
+        0 => {
+            if dyadic { Rat::new(rng.int(-12, 12) as i128, 1i128 << *rng.pick(&[0u32, 0, 0, 1, 2, 3])) }
+            else { Rat::new(rng.int(-12, 12) as i128, *rng.pick(&[1i128, 1, 1, 2, 3, 4, 6])) }
+        }
+        1 => {
+            if rng.chance(0.02) { return Rat::ZERO; }
+            let c: [(i128, i128); 10] = [(1, 1), (-1, 1), (2, 1), (-2, 1), (1, 2), (-1, 2), (3, 1), (-3, 2), (1, 1), (-1, 1)];
+            let (n, d) = *rng.pick(&c);
+            if !dyadic && rng.chance(0.1) { Rat::new(n, 3) } else { Rat::new(n, d) }
+        }
+        2 => {
+            if dyadic { Rat::new(rng.int(-1000, 1000) as i128, 1i128 << rng.int(0, 6)) }
+            else { Rat::new(rng.int(-1000, 1000) as i128, rng.int(1, 12) as i128) }
+        }
+        _ => {
+            if rng.chance(0.1) { Rat::new(rng.int(-3, 3) as i128, 2) } else { Rat::int(rng.int(-3, 3)) }
+        }
+    }
+}
+fn small_int(rng: &mut Rng, flavour: u32) -> i64 {
+    match flavour { 0 => rng.int(-9, 9), 1 => *rng.pick(&[1i64, -1, 2, -2, 3, 1, -1, 0]), 2 => rng.int(-1000, 1000), _ => rng.int(-3, 3) }
+}
+fn lex(a: &CRat, b: &CRat) -> Ordering { if a.re != b.re { a.re.cmp(&b.re) } else { a.im.cmp(&b.im) } }
+
+macro_rules! sort_by_impl { () => {
+    fn lib_sort_by(v: &mut Vector<Self>, mode: u8) {
+        match mode { 0 => v.sort_by(|a, b| Self::pcmp(a, b)), 1 => v.sort_by(|a, b| Self::pcmp(b, a)), _ => v.sort_by(|a, b| sort_cmp(2, a, b)) }
+    }
+} }
+impl El for Rat {
+    const NAME: &'static str = "Rat";
+    const FLOAT: bool = false;
+    const CAN_SORT: bool = true;
+    const CAN_RESIZE: bool = true;
+    const CAN_ASSIGN: bool = true;
+    fn to_m(&self) -> Option<CRat> { Some(r2c(*self)) }
+    fn from_m(m: &CRat) -> Option<Rat> { if m.im.is_zero() { Some(m.re) } else { None } }
+    fn id(&self) -> [u128; 4] { let (a, b) = rid(self); [a, b, 0, 0] }
+    fn gen(rng: &mut Rng, f: u32) -> Rat { small_rat(rng, f, false) }
+    fn pcmp(a: &Rat, b: &Rat) -> Ordering { a.cmp(b) }
+    sort_by_impl!();
+    fn abs_m(m: &CRat) -> Option<CRat> { Some(r2c(m.re.abs_r())) }
+    fn lib_sort(v: &mut Vector<Rat>) { v.sort() }
+    fn lib_resize(v: &mut Vector<Rat>, n: usize) { v.resize(n) }
+    fn lib_assign(v: &mut Vector<Rat>, x: &Rat) { v.assign(*x) }
+}
+impl El for i64 {
+    const NAME: &'static str = "i64";
+    const FLOAT: bool = false;
+    const CAN_SORT: bool = true;
+    const CAN_RESIZE: bool = true;
+    const CAN_ASSIGN: bool = true;
+    fn to_m(&self) -> Option<CRat> { Some(r2c(Rat::int(*self))) }
+    fn from_m(m: &CRat) -> Option<i64> { if m.im.is_zero() && m.re.d == 1 { i64::try_from(m.re.n).ok() } else { None } }
+    fn id(&self) -> [u128; 4] { [*self as u128, 0, 0, 0] }
+    fn gen(rng: &mut Rng, f: u32) -> i64 { small_int(rng, f) }
+    fn pcmp(a: &i64, b: &i64) -> Ordering { a.cmp(b) }
+    sort_by_impl!();
+    fn abs_m(m: &CRat) -> Option<CRat> { Some(r2c(m.re.abs_r())) }
+    fn lib_sort(v: &mut Vector<i64>) { v.sort() }
+    fn lib_resize(v: &mut Vector<i64>, n: usize) { v.resize(n) }
+    fn lib_assign(v: &mut Vector<i64>, x: &i64) { v.assign(*x) }
+}
+impl El for f64 {
+    const NAME: &'static str = "f64";
+    const FLOAT: bool = true;
+    const CAN_RESIZE: bool = true;
+    const CAN_ASSIGN: bool = true;
+    fn to_m(&self) -> Option<CRat> { f64_to_rat(*self).map(r2c) }
+    fn from_m(m: &CRat) -> Option<f64> { if m.im.is_zero() { m.re.as_exact_f64() } else { None } }
+    fn id(&self) -> [u128; 4] { [self.to_bits() as u128, 0, 0, 0] }
+    fn gen(rng: &mut Rng, f: u32) -> f64 { small_rat(rng, f, true).to_f64() }
+    fn pcmp(a: &f64, b: &f64) -> Ordering { a.partial_cmp(b).unwrap_or(Ordering::Equal) }
+    sort_by_impl!();
+    fn abs_m(m: &CRat) -> Option<CRat> { Some(r2c(m.re.abs_r())) }
+    fn lib_resize(v: &mut Vector<f64>, n: usize) { v.resize(n) }
+    fn lib_assign(v: &mut Vector<f64>, x: &f64) { v.assign(*x) }
+}
+impl El for CRat {
+    const NAME: &'static str = "CRat";
+    const FLOAT: bool = false;
+    const CAN_RESIZE: bool = true;
+    const CAN_ASSIGN: bool = true;
+    fn to_m(&self) -> Option<CRat> { Some(*self) }
+    fn from_m(m: &CRat) -> Option<CRat> { Some(*m) }
+    fn id(&self) -> [u128; 4] { let (a, b) = rid(&self.re); let (c, d) = rid(&self.im); [a, b, c, d] }
+    fn gen(rng: &mut Rng, f: u32) -> CRat { CRat::new(small_rat(rng, f, false), small_rat(rng, f, false)) }
+    fn pcmp(a: &CRat, b: &CRat) -> Ordering { a.partial_cmp(b).unwrap_or(Ordering::Equal) }
+    sort_by_impl!();
+    /// `Signed::abs` of the harness type CRat is by its definition (rat.rs) the 1-norm magnitude
+    fn abs_m(m: &CRat) -> Option<CRat> { Some(r2c(m.re.abs_r() + m.im.abs_r())) }
+    fn lib_resize(v: &mut Vector<CRat>, n: usize) { v.resize(n) }
+    fn lib_assign(v: &mut Vector<CRat>, x: &CRat) { v.assign(*x) }
+}
+impl El for CxR {
+    const NAME: &'static str = "Complex<Rat>";
+    const FLOAT: bool = false;
+    fn to_m(&self) -> Option<CRat> { Some(CRat::new(self.real, self.imag)) }
+    fn from_m(m: &CRat) -> Option<CxR> { Some(Complex::new(m.re, m.im)) }
+    fn id(&self) -> [u128; 4] { let (a, b) = rid(&self.real); let (c, d) = rid(&self.imag); [a, b, c, d] }
+    fn gen(rng: &mut Rng, f: u32) -> CxR { Complex::new(small_rat(rng, f, false), small_rat(rng, f, false)) }
+    fn pcmp(a: &CxR, b: &CxR) -> Ordering { a.partial_cmp(b).unwrap_or(Ordering::Equal) }
+    sort_by_impl!();
+}
+impl El for Cmplx {
+    const NAME: &'static str = "Complex<f64>";
+    const FLOAT: bool = true;
+    const CAN_ASSIGN: bool = true;
+    fn to_m(&self) -> Option<CRat> { Some(CRat::new(f64_to_rat(self.real)?, f64_to_rat(self.imag)?)) }
+    fn from_m(m: &CRat) -> Option<Cmplx> { Some(Cmplx::new(m.re.as_exact_f64()?, m.im.as_exact_f64()?)) }
+    fn id(&self) -> [u128; 4] { [self.real.to_bits() as u128, self.imag.to_bits() as u128, 0, 0] }
+    fn gen(rng: &mut Rng, f: u32) -> Cmplx { Cmplx::new(small_rat(rng, f, true).to_f64(), small_rat(rng, f, true).to_f64()) }
+    fn pcmp(a: &Cmplx, b: &Cmplx) -> Ordering { a.partial_cmp(b).unwrap_or(Ordering::Equal) }
+    sort_by_impl!();
+    fn lib_assign(v: &mut Vector<Cmplx>, x: &Cmplx) { v.assign(*x) }
+}
+
+fn gen_vec<T: El>(rng: &mut Rng, n: usize, flavour: u32) -> Vec<T> { (0..n).map(|_| T::gen(rng, flavour)).collect() }
+/// exact values of harness-generated data (always representable)
+fn ms<T: El>(a: &[T]) -> Vec<CRat> { a.iter().map(|x| x.to_m().unwrap_or_default()).collect() }
+fn mk<T: Clone>(a: &[T]) -> Vector<T> { Vector::create(a.to_vec()) }
+fn hash_ids<T: El>(mut h: u64, a: &[T]) -> u64 {
+    for x in a { for w in x.id() { h = hmix(h, w as u64 ^ ((w >> 64) as u64).rotate_left(17)); } }
+    hmix(h, a.len() as u64)
+}
+fn same_ids<T: El>(a: &[T], b: &[T]) -> bool { a.len() == b.len() && a.iter().zip(b).all(|(x, y)| x.id() == y.id()) }
+
+// ---------------------------------------------------------------- exactness certificates (float types)
+fn mag1(m: &CRat) -> f64 { m.re.to_f64().abs() + m.im.to_f64().abs() }
+/// log2 of the (power-of-two) denominator, None if the denominator is not a power of two
+fn denlog(m: &CRat) -> Option<f64> {
+    let mut best = 0f64;
+    for d in [m.re.d, m.im.d] {
+        if d <= 0 || (d & (d - 1)) != 0 { return None; }
+        best = best.max(d.trailing_zeros() as f64);
+    }
+    Some(best)
+}
+/// every sum of any subset of the terms (in any order) is exact in binary64
+fn cert_sum(terms: &[CRat]) -> bool {
+    let mut b = 0.0;
+    let mut s = 0f64;
+    for t in terms { match denlog(t) { Some(d) => s = s.max(d), None => return false } b += mag1(t); }
+    b == 0.0 || b.log2() + s < EXACT_BITS
+}
+/// every product of a contiguous run of the factors is exact in binary64 (components are integer
+/// multiples of 2^-S bounded by prod |g_i|_1)
+fn cert_prod(factors: &[CRat]) -> bool {
+    let mut bits = 0.0;
+    for t in factors {
+        let d = match denlog(t) { Some(d) => d, None => return false };
+        let m = mag1(t);
+        if m > 0.0 { bits += (m.log2() + d).max(0.0); }
+    }
+    bits < EXACT_BITS
+}
+
+// ---------------------------------------------------------------- judged cases (exact)
+/// Evaluate the model under `catch` (Rat overflow => None, the case is skipped).
+fn model<R>(st: &mut Stats, f: impl FnOnce() -> R) -> Option<R> {
+    match catch(f) { Outcome::Ok(r) => Some(r), _ => { st.count("skipped:rat-overflow-in-model"); None } }
+}
+
+/// A library call that must return the vector `exp` (exact values).
+fn case_vec_o<T: El>(st: &mut Stats, site: &str, exp: Option<Vec<CRat>>, lib: impl FnOnce() -> Vec<T>, desc: &dyn Fn() -> String) {
+    let exp = match exp { Some(e) => e, None => return };
+    if T::FLOAT && !exp.iter().all(|m| T::from_m(m).is_some()) { st.count("skipped:inexact-in-binary64"); return; }
+    st.eval();
+    st.count(&format!("evals:{}:{}", site, T::NAME));
+    match catch(lib) {
+        Outcome::Ok(got) => {
+            let ok = got.len() == exp.len() && got.iter().zip(&exp).all(|(g, e)| g.to_m().as_ref() == Some(e));
+            if !ok {
+                st.violation(&format!("C15:{}:{}:wrong-value", site, T::NAME),
+                    format!("{} returned {:?} but the definition gives {:?}; {}", site, got, exp, desc()));
+            }
+        }
+        Outcome::Overflow => st.count("skipped:rat-overflow-in-library"),
+        other => st.violation(&format!("C15:{}:{}:refused", site, T::NAME),
+            format!("{} {} but the definition gives {:?}; {}", site, other.describe(), exp, desc())),
+    }
+}
+
+/// A library call that must return the scalar `exp`.
+fn case_scalar_o<T: El>(st: &mut Stats, site: &str, exp: Option<CRat>, lib: impl FnOnce() -> T, desc: &dyn Fn() -> String) {
+    let exp = match exp { Some(e) => e, None => return };
+    if T::FLOAT && T::from_m(&exp).is_none() { st.count("skipped:inexact-in-binary64"); return; }
+    st.eval();
+    st.count(&format!("evals:{}:{}", site, T::NAME));
+    match catch(lib) {
+        Outcome::Ok(got) => {
+            if got.to_m() != Some(exp) {
+                st.violation(&format!("C15:{}:{}:wrong-value", site, T::NAME),
+                    format!("{} returned {:?} but the definition gives {:?}; {}", site, got, exp, desc()));
+            }
+        }
+        Outcome::Overflow => st.count("skipped:rat-overflow-in-library"),
+        other => st.violation(&format!("C15:{}:{}:refused", site, T::NAME),
+            format!("{} {} but the definition gives {:?}; {}", site, other.describe(), exp, desc())),
+    }
+}
+
+
+fn case_vec<T: El>(st: &mut Stats, site: &str, exp: impl FnOnce() -> Vec<CRat>, lib: impl FnOnce() -> Vec<T>, desc: &dyn Fn() -> String) {
+    let e = model(st, exp);
+    case_vec_o::<T>(st, site, e, lib, desc)
+}
+fn case_scalar<T: El>(st: &mut Stats, site: &str, exp: impl FnOnce() -> CRat, lib: impl FnOnce() -> T, desc: &dyn Fn() -> String) {
+    let e = model(st, exp);
+    case_scalar_o::<T>(st, site, e, lib, desc)
+}
+
+/// A library call that must be rejected (any panic is a rejection).
+fn case_reject<R: Debug>(st: &mut Stats, site: &str, tname: &str, lib: impl FnOnce() -> R, desc: &dyn Fn() -> String) {
+    st.eval();
+    st.count(&format!("evals:{}:{}", site, tname));
+    match catch(lib) {
+        Outcome::Ok(r) => st.violation(&format!("C15:{}:{}:accepted-invalid", site, tname),
+            format!("{} returned {:?} where rejection is required; {}", site, r, desc())),
+        Outcome::Overflow => st.count("skipped:rat-overflow-in-library"),
+        _ => st.count(&format!("rejections:{}", site)),
+    }
+}
+
+// textbook definitions on exact values
+fn d_zip(a: &[CRat], b: &[CRat], f: impl Fn(CRat, CRat) -> CRat) -> Vec<CRat> { (0..a.len()).map(|i| f(a[i], b[i])).collect() }
+fn d_map(a: &[CRat], f: impl Fn(CRat) -> CRat) -> Vec<CRat> { a.iter().map(|x| f(*x)).collect() }
+fn d_dot(a: &[CRat], b: &[CRat]) -> CRat { let mut s = CRat::default(); for i in 0..a.len() { s = s + a[i] * b[i]; } s }
+fn d_sum(a: &[CRat], lo: usize, hi: usize) -> CRat { let mut s = CRat::default(); for k in lo..=hi { s = s + a[k]; } s }
+fn d_total(a: &[CRat]) -> CRat { let mut s = CRat::default(); for x in a { s = s + *x; } s }
+fn d_prod(a: &[CRat], lo: usize, hi: usize) -> CRat { let mut s = CRat::new(Rat::ONE, Rat::ZERO); for k in lo..=hi { s = s * a[k]; } s }
+
+/// a vector of the other length for size-mismatch checks
+fn other_len(rng: &mut Rng, n: usize) -> usize { loop { let k = rng.usize(0, MAXLEN); if k != n { return k; } } }
+
+/// impls needing only Clone + Number: v*s, v/s, v+=w, v-=w, v+=s, v-=s, v*=s, v/=s
+fn arith_clone<T: El + Number>(st: &mut Stats, rng: &mut Rng, n: usize, fl: u32) {
+    st.next_case();
+    let a: Vec<T> = gen_vec(rng, n, fl);
+    let b: Vec<T> = gen_vec(rng, n, fl);
+    let s: T = T::gen(rng, fl);
+    let (ma, mb, msc) = (ms(&a), ms(&b), s.to_m().unwrap_or_default());
+    let desc = || format!("T={} a={:?} b={:?} s={:?}", T::NAME, a, b, s);
+    case_vec::<T>(st, "mul-scalar", || d_map(&ma, |x| x * msc), || (mk(&a) * s.clone()).vec, &desc);
+    case_vec::<T>(st, "add-assign-vec", || d_zip(&ma, &mb, |x, y| x + y), || { let mut v = mk(&a); v += mk(&b); v.vec }, &desc);
+    case_vec::<T>(st, "sub-assign-vec", || d_zip(&ma, &mb, |x, y| x - y), || { let mut v = mk(&a); v -= mk(&b); v.vec }, &desc);
+    case_vec::<T>(st, "add-assign-scalar", || d_map(&ma, |x| x + msc), || { let mut v = mk(&a); v += s.clone(); v.vec }, &desc);
+    case_vec::<T>(st, "sub-assign-scalar", || d_map(&ma, |x| x - msc), || { let mut v = mk(&a); v -= s.clone(); v.vec }, &desc);
+    case_vec::<T>(st, "mul-assign-scalar", || d_map(&ma, |x| x * msc), || { let mut v = mk(&a); v *= s.clone(); v.vec }, &desc);
+    // division: a = q (.) d built in the model so that the quotient is exactly q
+    let q: Vec<T> = gen_vec(rng, n, fl);
+    let mq = ms(&q);
+    let d: T = loop { let d = T::gen(rng, if fl == 2 { 0 } else { fl }); if d.to_m().map(|m| !m.is_zero()).unwrap_or(false) { break d; } };
+    let md = d.to_m().unwrap_or_default();
+    if let Some(prod) = model(st, || d_map(&mq, |x| x * md)) {
+        let num: Option<Vec<T>> = prod.iter().map(|m| T::from_m(m)).collect();
+        if let Some(num) = num {
+            let desc = || format!("T={} a={:?} divisor={:?}", T::NAME, num, d);
+            case_vec_o::<T>(st, "div-scalar", Some(mq.clone()), || (mk(&num) / d.clone()).vec, &desc);
+            case_vec_o::<T>(st, "div-assign-scalar", Some(mq.clone()), || { let mut v = mk(&num); v /= d.clone(); v.vec }, &desc);
+        } else { st.count("skipped:inexact-in-binary64"); }
+    }
+    // size mismatch must be rejected and must leave the left operand untouched
+    let nc = other_len(rng, n);
+    let c: Vec<T> = gen_vec(rng, nc, fl);
+    let desc = || format!("T={} a={:?} (len {}) c={:?} (len {})", T::NAME, a, a.len(), c, c.len());
+    for (site, plus) in [("add-assign-vec-mismatch", true), ("sub-assign-vec-mismatch", false)] {
+        let mut v = mk(&a);
+        case_reject(st, site, T::NAME, || { if plus { v += mk(&c) } else { v -= mk(&c) } }, &desc);
+        if !same_ids(&v.vec, &a) {
+            st.violation(&format!("C15:{}:{}:operand-modified", site, T::NAME), format!("left operand became {:?}; {}", v.vec, desc()));
+        }
+    }
+    if n >= 2 { st.nontrivial(hash_ids(hash_ids(hash_str("arith-clone") ^ hash_str(T::NAME), &a), &b)); }
+    st.sample(|| desc());
+}
+
+fn arith_neg<T: El + Neg<Output = T>>(st: &mut Stats, rng: &mut Rng, n: usize, fl: u32) {
+    st.next_case();
+    let a: Vec<T> = gen_vec(rng, n, fl);
+    let ma = ms(&a);
+    let desc = || format!("T={} a={:?}", T::NAME, a);
+    case_vec::<T>(st, "neg", || d_map(&ma, |x| -x), || (-mk(&a)).vec, &desc);
+    if n >= 2 { st.nontrivial(hash_ids(hash_str("neg") ^ hash_str(T::NAME), &a)); }
+}
+
+/// impls needing Copy: the six +/- forms and dot (with size checks)
+fn arith_copy<T: El + Number + Copy>(st: &mut Stats, rng: &mut Rng, n: usize, fl: u32) {
+    st.next_case();
+    let a: Vec<T> = gen_vec(rng, n, fl);
+    let b: Vec<T> = gen_vec(rng, n, fl);
+    let (ma, mb) = (ms(&a), ms(&b));
+    let desc = || format!("T={} a={:?} b={:?}", T::NAME, a, b);
+    let sum = model(st, || d_zip(&ma, &mb, |x, y| x + y));
+    let dif = model(st, || d_zip(&ma, &mb, |x, y| x - y));
+    case_vec_o::<T>(st, "add-ref-ref", sum.clone(), || (&mk(&a) + &mk(&b)).vec, &desc);
+    case_vec_o::<T>(st, "add-val-ref", sum.clone(), || (mk(&a) + &mk(&b)).vec, &desc);
+    case_vec_o::<T>(st, "add-val-val", sum, || (mk(&a) + mk(&b)).vec, &desc);
+    case_vec_o::<T>(st, "sub-ref-ref", dif.clone(), || (&mk(&a) - &mk(&b)).vec, &desc);
+    case_vec_o::<T>(st, "sub-val-ref", dif.clone(), || (mk(&a) - &mk(&b)).vec, &desc);
+    case_vec_o::<T>(st, "sub-val-val", dif, || (mk(&a) - mk(&b)).vec, &desc);
+    // dot: bilinear sum a_i*b_i (the generic routine does not conjugate)
+    let terms = model(st, || d_zip(&ma, &mb, |x, y| CRat::new(x.re.abs_r() + x.im.abs_r(), Rat::ZERO) * CRat::new(y.re.abs_r() + y.im.abs_r(), Rat::ZERO)));
+    let exact_ok = !T::FLOAT || terms.map(|t| cert_sum(&t)).unwrap_or(false);
+    if exact_ok { case_scalar::<T>(st, "dot", || d_dot(&ma, &mb), || mk(&a).dot(&mk(&b)), &desc); }
+    else { st.count("skipped:inexact-in-binary64"); }
+    let nc = other_len(rng, n);
+    let c: Vec<T> = gen_vec(rng, nc, fl);
+    let desc = || format!("T={} a={:?} (len {}) c={:?} (len {})", T::NAME, a, a.len(), c, c.len());
+    case_reject(st, "add-mismatch", T::NAME, || (&mk(&a) + &mk(&c)).vec, &desc);
+    case_reject(st, "add-mismatch", T::NAME, || (mk(&c) + mk(&a)).vec, &desc);
+    case_reject(st, "sub-mismatch", T::NAME, || (&mk(&a) - &mk(&c)).vec, &desc);
+    case_reject(st, "sub-mismatch", T::NAME, || (mk(&c) - &mk(&a)).vec, &desc);
+    case_reject(st, "dot-mismatch", T::NAME, || mk(&a).dot(&mk(&c)), &desc);
+    case_reject(st, "dot-mismatch", T::NAME, || mk(&c).dot(&mk(&a)), &desc);
+    if n >= 2 { st.nontrivial(hash_ids(hash_ids(hash_str("arith-copy") ^ hash_str(T::NAME), &a), &b)); }
+}
+
+/// abs() and norm_1() with the element absolute value defined by `El::abs_m`
+fn arith_signed<T: El + Number + Signed>(st: &mut Stats, rng: &mut Rng, n: usize, fl: u32) {
+    st.next_case();
+    let a: Vec<T> = gen_vec(rng, n, fl);
+    let ma = ms(&a);
+    let desc = || format!("T={} a={:?}", T::NAME, a);
+    let absd = model(st, || d_map(&ma, |x| T::abs_m(&x).unwrap_or_default()));
+    case_vec_o::<T>(st, "abs", absd.clone(), || mk(&a).abs().vec, &desc);
+    if let Some(ab) = absd {
+        if !T::FLOAT || cert_sum(&ab) { case_scalar::<T>(st, "norm_1", || d_total(&ab), || mk(&a).norm_1(), &desc); }
+        else { st.count("skipped:inexact-in-binary64"); }
+    }
+    if n >= 2 { st.nontrivial(hash_ids(hash_str("signed") ^ hash_str(T::NAME), &a)); }
+}
+
+// ---------------------------------------------------------------- range reductions
+/// sum_slice / product_slice / sum / product. `full`: every (start,end) in 0..=n+1 squared
+/// (valid and invalid), else `nr` random pairs biased to the boundaries.
+fn reductions<T: El + Number + Copy>(st: &mut Stats, rng: &mut Rng, n: usize, full: bool, fl: u32) {
+    st.next_case();
+    let a: Vec<T> = gen_vec(rng, n, fl);
+    let ma = ms(&a);
+    let v = mk(&a);
+    let desc0 = || format!("T={} a={:?} (len {})", T::NAME, a, n);
+    let sum_exact = !T::FLOAT || cert_sum(&ma);
+    let mut pairs: Vec<(usize, usize)> = vec![];
+    if full { for s in 0..=n + 1 { for e in 0..=n + 1 { pairs.push((s, e)); } } }
+    else {
+        for _ in 0..40 {
+            let pick = |rng: &mut Rng| -> usize { match rng.below(8) { 0 => 0, 1 => n.saturating_sub(1), 2 => n, 3 => n + rng.usize(1, 3), _ => rng.usize(0, n) } };
+            let (s, e) = (pick(rng), pick(rng));
+            pairs.push(if rng.chance(0.7) { (s.min(e), s.max(e)) } else { (s, e) });
+        }
+        pairs.push((0, usize::MAX)); pairs.push((usize::MAX, usize::MAX)); pairs.push((usize::MAX, 0));
+    }
+    for &(s, e) in &pairs {
+        let desc = || format!("start={} end={} {}", s, e, desc0());
+        if s > e || e >= n {
+            case_reject(st, "sum_slice-bad-range", T::NAME, || v.sum_slice(s, e), &desc);
+            case_reject(st, "product_slice-bad-range", T::NAME, || v.product_slice(s, e), &desc);
+            continue;
+        }
+        if sum_exact { case_scalar::<T>(st, "sum_slice", || d_sum(&ma, s, e), || v.sum_slice(s, e), &desc); }
+        else { st.count("skipped:inexact-in-binary64"); }
+        if !T::FLOAT || cert_prod(&ma[s..=e]) { case_scalar::<T>(st, "product_slice", || d_prod(&ma, s, e), || v.product_slice(s, e), &desc); }
+        else { st.count("skipped:inexact-in-binary64"); }
+    }
+    if n > 0 {
+        if sum_exact { case_scalar::<T>(st, "sum", || d_total(&ma), || v.sum(), &desc0); }
+        if !T::FLOAT || cert_prod(&ma) { case_scalar::<T>(st, "product", || d_prod(&ma, 0, n - 1), || v.product(), &desc0); }
+    } else {
+        // undefined by the property: a panic or the conventional empty value (0 / 1) is accepted
+        for (site, conv) in [("sum-empty", CRat::default()), ("product-empty", CRat::new(Rat::ONE, Rat::ZERO))] {
+            st.eval();
+            match catch(|| if site == "sum-empty" { v.sum() } else { v.product() }) {
+                Outcome::Ok(x) => {
+                    if x.to_m() != Some(conv) {
+                        st.violation(&format!("C15:{}:{}:unconventional-value", site, T::NAME), format!("{} on an empty vector returned {:?}", site, x));
+                    } else { st.count("undefined:empty-reduction-conventional-value"); }
+                }
+                _ => st.count("undefined:empty-reduction-panicked"),
+            }
+        }
+    }
+    st.count(&format!("reduction-vectors:{}:{}", T::NAME, if full { "all-ranges" } else { "random-ranges" }));
+    if n >= 2 { st.nontrivial(hash_ids(hash_str("reductions") ^ hash_str(T::NAME) ^ full as u64, &a)); }
+    st.sample(|| desc0());
+}
+
+// ---------------------------------------------------------------- complex-only methods, f64 left multiplication
+fn conj_real_exact(st: &mut Stats, rng: &mut Rng, n: usize, fl: u32) {
+    st.next_case();
+    let a: Vec<CxR> = gen_vec(rng, n, fl);
+    let ma = ms(&a);
+    let desc = || format!("T=Complex<Rat> a={:?}", a);
+    case_vec_o::<CxR>(st, "conj", Some(d_map(&ma, |z| CRat::new(z.re, -z.im))), || mk(&a).conj().vec, &desc);
+    case_vec_o::<Rat>(st, "real", Some(d_map(&ma, |z| r2c(z.re))), || mk(&a).real().vec, &desc);
+    if n >= 2 { st.nontrivial(hash_ids(hash_str("conj-real-exact"), &a)); }
+}
+
+fn conj_real_abs_cmplx(st: &mut Stats, rng: &mut Rng, n: usize, fl: u32) {
+    st.next_case();
+    let a: Vec<Cmplx> = gen_vec(rng, n, fl);
+    let ma = ms(&a);
+    let desc = || format!("T=Complex<f64> a={:?}", a);
+    case_vec_o::<Cmplx>(st, "conj", Some(d_map(&ma, |z| CRat::new(z.re, -z.im))), || mk(&a).conj().vec, &desc);
+    case_vec_o::<f64>(st, "real", Some(d_map(&ma, |z| r2c(z.re))), || mk(&a).real().vec, &desc);
+    // abs(): elementwise modulus (|z|, 0); re^2+im^2 is exact here, so only the square root rounds
+    st.eval();
+    match catch(|| mk(&a).abs().vec) {
+        Outcome::Ok(g) => {
+            let mut bad = g.len() != n;
+            let mut worst = 0f64;
+            if !bad {
+                for i in 0..n {
+                    let t = (DD::prod(a[i].real, a[i].real) + DD::prod(a[i].imag, a[i].imag)).sqrt().f();
+                    let err = (g[i].real - t).abs();
+                    if g[i].imag != 0.0 || !(err <= MOD_TOL * t) { bad = true; }
+                    if t > 0.0 { worst = worst.max(err / (MOD_TOL * t)); }
+                }
+            }
+            st.max("ratio:cmplx-abs-exact-data:err/tol", worst);
+            if bad { st.violation("C15:abs:Complex<f64>:wrong-value", format!("abs returned {:?}; {}", g, desc())); }
+        }
+        other => st.violation("C15:abs:Complex<f64>:refused", format!("abs {}; {}", other.describe(), desc())),
+    }
+    if n >= 2 { st.nontrivial(hash_ids(hash_str("conj-real-abs-cmplx"), &a)); }
+}
+
+fn left_mul_f64(st: &mut Stats, rng: &mut Rng, n: usize, fl: u32) {
+    st.next_case();
+    let a: Vec<f64> = gen_vec(rng, n, fl);
+    let s = f64::gen(rng, fl);
+    let (ma, msc) = (ms(&a), s.to_m().unwrap_or_default());
+    let desc = || format!("T=f64 s={:?} a={:?}", s, a);
+    case_vec::<f64>(st, "scalar-mul-left", || d_map(&ma, |x| msc * x), || (s * mk(&a)).vec, &desc);
+    if n >= 2 { st.nontrivial(hmix(hash_ids(hash_str("left-mul"), &a), s.to_bits())); }
+}
+
+// ---------------------------------------------------------------- edit histories in lock step with a plain list
+#[derive(Clone, Debug)]
+enum Op<T> {
+    Push(T), PushFront(T), Insert(usize, T), Pop, Swap(usize, usize), Resize(usize), Assign(T), Clear,
+    Sort, SortBy(u8), Find(T), SetIdx(usize, T), GetIdx(usize), CloneEq,
+}
+fn op_name<T>(op: &Op<T>) -> &'static str {
+    match op {
+        Op::Push(_) => "push", Op::PushFront(_) => "push_front", Op::Insert(..) => "insert", Op::Pop => "pop", Op::Swap(..) => "swap",
+        Op::Resize(_) => "resize", Op::Assign(_) => "assign", Op::Clear => "clear", Op::Sort => "sort", Op::SortBy(_) => "sort_by",
+        Op::Find(_) => "find", Op::SetIdx(..) => "index-write", Op::GetIdx(_) => "index-read", Op::CloneEq => "clone",
+    }
+}
+fn mkey<T: El>(x: &T) -> CRat { x.to_m().unwrap_or_default() }
+fn sort_cmp<T: El>(mode: u8, a: &T, b: &T) -> Ordering {
+    match mode {
+        0 => lex(&mkey(a), &mkey(b)),
+        1 => lex(&mkey(b), &mkey(a)),
+        _ => { let (x, y) = (mkey(a), mkey(b)); (x.re.abs_r() + x.im.abs_r()).cmp(&(y.re.abs_r() + y.im.abs_r())) }
+    }
+}
+/// stable insertion sort (the model's own sorting routine)
+fn insertion_sort<T: Clone>(a: &mut Vec<T>, cmp: impl Fn(&T, &T) -> Ordering) {
+    for i in 1..a.len() {
+        let mut j = i;
+        while j > 0 && cmp(&a[j - 1], &a[j]) == Ordering::Greater { a.swap(j - 1, j); j -= 1; }
+    }
+}
+
+/// Apply one operation to the library vector and to the model; false => stop this history.
+fn step<T: El>(st: &mut Stats, v: &mut Vector<T>, m: &mut Vec<T>, op: &Op<T>, trace: &dyn Fn() -> String) -> bool {
+    let name = op_name(op);
+    let before = m.clone();
+    st.eval();
+    st.count(&format!("hist-ops:{}:{}", T::NAME, name));
+    let sig = |mode: &str| format!("C15:hist-{}:{}:{}", name, T::NAME, mode);
+    // (returned ok?, return value mismatch description)
+    let mut ret_bad: Option<String> = None;
+    let out: Outcome<()> = match op {
+        Op::Push(x) => { m.push(x.clone()); catch(|| v.push(x.clone())) }
+        Op::PushFront(x) => { m.insert(0, x.clone()); catch(|| v.push_front(x.clone())) }
+        Op::Insert(p, x) => { m.insert(*p, x.clone()); catch(|| v.insert(*p, x.clone())) }
+        Op::Pop => {
+            if m.is_empty() {
+                // undefined by the property: panic (state must stay empty) or anything else accepted
+                st.count("undefined:pop-on-empty");
+                let _ = catch(|| v.pop());
+                *m = v.vec.clone();
+                Outcome::Ok(())
+            } else {
+                let e = m.pop().unwrap();
+                catch(|| v.pop()).map_ok(|r| { if r.id() != e.id() { ret_bad = Some(format!("pop returned {:?}, expected {:?}", r, e)); } })
+            }
+        }
+        Op::Swap(i, j) => { m.swap(*i, *j); catch(|| v.swap(*i, *j)) }
+        Op::Resize(k) => {
+            let d = T::from_m(&T::default_m());
+            match d { Some(d) => { m.resize(*k, d); catch(|| T::lib_resize(v, *k)) } None => Outcome::Ok(()) }
+        }
+        Op::Assign(x) => { for y in m.iter_mut() { *y = x.clone(); } catch(|| T::lib_assign(v, x)) }
+        Op::Clear => { m.clear(); catch(|| v.clear()) }
+        Op::Sort => { insertion_sort(m, |a, b| sort_cmp(0, a, b)); catch(|| T::lib_sort(v)) }
+        Op::SortBy(mode) => {
+            let mode = *mode;
+            let o = catch(|| T::lib_sort_by(v, mode));
+            if o.is_ok() {
+                // ordered w.r.t. the comparator and a permutation of the previous contents
+                let ordered = v.vec.windows(2).all(|w| sort_cmp(mode, &w[0], &w[1]) != Ordering::Greater);
+                let mut x: Vec<[u128; 4]> = v.vec.iter().map(|e| e.id()).collect();
+                let mut y: Vec<[u128; 4]> = before.iter().map(|e| e.id()).collect();
+                x.sort(); y.sort();
+                if !ordered || x != y { ret_bad = Some(format!("result {:?} is not the sorted permutation of {:?} (mode {})", v.vec, before, mode)); }
+                if mode < 2 { insertion_sort(m, |a, b| sort_cmp(mode, a, b)); } else if ret_bad.is_none() { *m = v.vec.clone(); }
+            }
+            o
+        }
+        Op::Find(x) => {
+            if m.is_empty() { st.count("undefined:find-on-empty"); let _ = catch(|| v.find(x.clone())); Outcome::Ok(()) }
+            else {
+                let xm = x.to_m();
+                let e = m.iter().position(|y| y.to_m() == xm).unwrap_or(m.len() - 1);
+                st.count(if m.iter().any(|y| y.to_m() == xm) { "find:present" } else { "find:absent" });
+                catch(|| v.find(x.clone())).map_ok(|r| { if r != e { ret_bad = Some(format!("find({:?}) returned {}, definition gives {}", x, r, e)); } })
+            }
+        }
+        Op::SetIdx(i, x) => { m[*i] = x.clone(); catch(|| { v[*i] = x.clone(); }) }
+        Op::GetIdx(i) => {
+            let e = m[*i].clone();
+            catch(|| v[*i].clone()).map_ok(|r| { if r.id() != e.id() { ret_bad = Some(format!("v[{}] read {:?}, expected {:?}", i, r, e)); } })
+        }
+        Op::CloneEq => {
+            catch(|| { let c = v.clone(); (c.vec.clone(), c == *v, c.size()) })
+                .map_ok(|(cv, eq, sz)| { if !same_ids(&cv, m) || !eq || sz != m.len() { ret_bad = Some(format!("clone gave {:?} (== original: {}, size {})", cv, eq, sz)); } })
+        }
+    };
+    match out {
+        Outcome::Ok(()) => {}
+        Outcome::Overflow => { st.count("skipped:rat-overflow-in-library"); return false; }
+        other => {
+            st.violation(&sig("refused"), format!("{} on a valid {:?} applied to {:?}; {}", other.describe(), op, before, trace()));
+            return false;
+        }
+    }
+    if let Some(b) = ret_bad {
+        st.violation(&sig("wrong-return"), format!("{}; state before {:?}; {}", b, before, trace()));
+        return false;
+    }
+    let size = catch(|| v.size()).ok();
+    if !same_ids(&v.vec, m) || size != Some(m.len()) {
+        st.violation(&sig("state-mismatch"), format!("after {:?} on {:?}: vec={:?} size={:?} but the list model is {:?}; {}", op, before, v.vec, size, m, trace()));
+        return false;
+    }
+    true
+}
+
+trait MapOk<R> { fn map_ok(self, f: impl FnOnce(R)) -> Outcome<()>; }
+impl<R> MapOk<R> for Outcome<R> {
+    fn map_ok(self, f: impl FnOnce(R)) -> Outcome<()> {
+        match self {
+            Outcome::Ok(r) => { f(r); Outcome::Ok(()) }
+            Outcome::Panic { msg, loc } => Outcome::Panic { msg, loc },
+            Outcome::Overflow => Outcome::Overflow,
+            Outcome::Budget => Outcome::Budget,
+        }
+    }
+}
+
+fn random_op<T: El>(rng: &mut Rng, m: &[T]) -> Op<T> {
+    let len = m.len();
+    let val = |rng: &mut Rng| T::gen(rng, 3);
+    loop {
+        let k = rng.below(32);
+        let op = match k {
+            0..=4 if len < MAXLEN => Op::Push(val(rng)),
+            5..=7 if len < MAXLEN => Op::PushFront(val(rng)),
+            8..=11 if len < MAXLEN => Op::Insert(match rng.below(4) { 0 => 0, 1 => len, _ => rng.usize(0, len) }, val(rng)),
+            12..=14 => Op::Pop,
+            15..=17 if len > 0 => Op::Swap(rng.usize(0, len - 1), if rng.chance(0.2) { len - 1 } else { rng.usize(0, len - 1) }),
+            18..=19 if T::CAN_RESIZE => Op::Resize(match rng.below(5) { 0 => 0, 1 => len, 2 => MAXLEN.min(len + rng.usize(1, 9)), 3 => len / 2, _ => rng.usize(0, MAXLEN) }),
+            20 if T::CAN_ASSIGN => Op::Assign(val(rng)),
+            21 if rng.chance(0.3) => Op::Clear,
+            22..=23 if T::CAN_SORT => Op::Sort,
+            24..=25 => Op::SortBy(rng.below(3) as u8),
+            26..=28 => Op::Find(if len > 0 && rng.chance(0.6) { m[rng.usize(0, len - 1)].clone() } else { val(rng) }),
+            29 if len > 0 => Op::SetIdx(rng.usize(0, len - 1), val(rng)),
+            30 if len > 0 => Op::GetIdx(rng.usize(0, len - 1)),
+            31 => Op::CloneEq,
+            _ => continue,
+        };
+        return op;
+    }
+}
+
+fn start_state<T: El + Number>(rng: &mut Rng) -> (Vector<T>, Vec<T>, String) {
+    match rng.below(6) {
+        0 => (Vector::<T>::empty(), vec![], "empty()".into()),
+        1 => { let n = rng.usize(0, 12); let a: Vec<T> = gen_vec(rng, n, 3); (Vector::create(a.clone()), a.clone(), format!("create({:?})", a)) }
+        2 => { let n = rng.usize(0, 8); let x = T::gen(rng, 3); (Vector::new(n, x.clone()), vec![x.clone(); n], format!("new({}, {:?})", n, x)) }
+        3 => { let n = rng.usize(0, 8); (Vector::<T>::zeros(n), vec![T::zero(); n], format!("zeros({})", n)) }
+        4 => { let n = rng.usize(0, 8); (Vector::<T>::ones(n), vec![T::one(); n], format!("ones({})", n)) }
+        _ => { let n = rng.usize(40, MAXLEN); let a: Vec<T> = gen_vec(rng, n, 3); (Vector::create(a.clone()), a.clone(), format!("create({:?})", a)) }
+    }
+}
+
+/// one random history of up to `steps` operations
+fn history<T: El + Number>(st: &mut Stats, rng: &mut Rng, steps: usize) {
+    st.next_case();
+    let (mut v, mut m, start) = match catch(|| { let mut r = rng.clone(); let s = start_state::<T>(&mut r); (s, r) }) {
+        Outcome::Ok((s, r)) => { *rng = r; s }
+        other => { st.violation(&format!("C15:hist-construct:{}:refused", T::NAME), format!("constructor {}", other.describe())); return; }
+    };
+    if !same_ids(&v.vec, &m) {
+        st.violation(&format!("C15:hist-construct:{}:state-mismatch", T::NAME), format!("{} gave {:?}, expected {:?}", start, v.vec, m));
+        return;
+    }
+    let mut ops: Vec<Op<T>> = Vec::with_capacity(steps);
+    let mut h = hash_ids(hash_str("history") ^ hash_str(T::NAME), &m);
+    let (mut changes, mut maxlen) = (0usize, m.len());
+    for _ in 0..steps {
+        let op = random_op::<T>(rng, &m);
+        ops.push(op.clone());
+        let before_len = m.len();
+        let trace = || format!("T={} start={} history={:?}", T::NAME, start, ops);
+        if !step(st, &mut v, &mut m, &op, &trace) { return; }
+        h = hmix(hash_ids(h, &m), hash_str(op_name(&op)));
+        if !matches!(op, Op::Find(_) | Op::GetIdx(_) | Op::CloneEq) && (before_len > 0 || m.len() > 0) { changes += 1; }
+        maxlen = maxlen.max(m.len());
+    }
+    st.max(&format!("hist-max-len:{}", T::NAME), maxlen as f64);
+    // non-trivial: at least 3 editing steps and the vector reached length >= 2
+    if changes >= 3 && maxlen >= 2 { st.nontrivial(h); }
+    st.sample(|| format!("T={} start={} history={:?}", T::NAME, start, ops));
+}
+
+const SWEEP_OPS: u64 = 11;
+const SWEEP_LEN: usize = 4;
+/// deterministic operation `code` at step `k` on a list of length `len`
+fn sweep_op(code: u64, k: usize, len: usize) -> Op<Rat> {
+    let val = Rat::int([2, 1, 3, 1][k % 4]);
+    match code {
+        0 => Op::Push(val),
+        1 => Op::PushFront(val),
+        2 => Op::Insert(len / 2, val),
+        3 => Op::Pop,
+        4 => if len > 0 { Op::Swap(0, len - 1) } else { Op::CloneEq },
+        5 => Op::Resize(len + 2),
+        6 => Op::Resize(len / 2),
+        7 => Op::Assign(val),
+        8 => Op::Clear,
+        9 => Op::Sort,
+        _ => Op::Find(val),
+    }
+}
+/// all SWEEP_OPS^SWEEP_LEN operation sequences whose first two codes are given by `unit`, from 3 start lists
+fn sweep_unit(st: &mut Stats, unit: u64) {
+    let (c0, c1) = (unit / SWEEP_OPS, unit % SWEEP_OPS);
+    let starts: [Vec<Rat>; 3] = [vec![], vec![Rat::int(3)], vec![Rat::int(2), Rat::int(1), Rat::int(2)]];
+    for start in &starts {
+        for c2 in 0..SWEEP_OPS { for c3 in 0..SWEEP_OPS {
+            st.next_case();
+            let codes = [c0, c1, c2, c3];
+            let mut v = Vector::create(start.clone());
+            let mut m = start.clone();
+            let mut ops: Vec<Op<Rat>> = vec![];
+            let mut maxlen = m.len();
+            let mut done = true;
+            for k in 0..SWEEP_LEN {
+                let op = sweep_op(codes[k], k, m.len());
+                ops.push(op.clone());
+                let trace = || format!("T=Rat start=create({:?}) history={:?}", start, ops);
+                if !step(st, &mut v, &mut m, &op, &trace) { done = false; break; }
+                maxlen = maxlen.max(m.len());
+            }
+            if done { st.count("sweep-histories-completed"); }
+            if done && maxlen >= 2 { st.nontrivial(hmix(hmix(hash_str("sweep"), unit * 1000 + c2 * SWEEP_OPS + c3), start.len() as u64)); }
+        } }
+    }
+}
+
+// ---------------------------------------------------------------- numerical norms (f64, Complex<f64>)
+/// data classes; all magnitudes are 0 or within [2^-108, 2^108] so that |x|^p (p<=8) and 64-term sums
+/// stay inside the normal binary64 range (declared judged domain)
+fn float_vec(rng: &mut Rng, n: usize, class: u64) -> Vec<f64> {
+    let k = 2f64.powi(rng.int(-100, 100) as i32);
+    let c = rng.sym();
+    (0..n).map(|i| match class {
+        0 => rng.sym(),
+        1 => rng.logmag(2f64.powi(-100), 2f64.powi(100)),
+        2 => rng.int(-9, 9) as f64,
+        3 => if rng.chance(0.1) || i == n / 2 { rng.sym() * k } else { 0.0 },
+        4 => if rng.bool() { c * k } else { -c * k },
+        _ => rng.sym() * k,
+    }).map(|x: f64| if x != 0.0 && x.abs() < DOM_LO { 0.0 } else { x }).collect()
+}
+/// judged magnitude domain of the numerical norms: entries are 0 or within [2^-118, 2^118]
+const DOM_LO: f64 = 1.0 / DOM_HI;
+const DOM_HI: f64 = 332306998946228968225951765070086144.0; // 2^118
+fn in_domain(a: &[f64]) -> bool { a.iter().all(|x| *x == 0.0 || (x.abs() >= DOM_LO && x.abs() <= DOM_HI)) }
+/// elementwise binary64 operations are defined by IEEE-754: the library result must be bit-equal to `own`
+fn same_bits(st: &mut Stats, site: &str, out: Outcome<Vec<f64>>, own: &[f64], desc: &dyn Fn() -> String) {
+    st.eval();
+    match out {
+        Outcome::Ok(g) => {
+            if g.len() != own.len() || g.iter().zip(own).any(|(x, y)| x.to_bits() != y.to_bits() && !(*x == 0.0 && *y == 0.0)) {
+                st.violation(&format!("C15:{}:f64:wrong-value", site), format!("{} returned {:?}, elementwise IEEE result is {:?}; {}", site, g, own, desc()));
+            }
+        }
+        other => st.violation(&format!("C15:{}:f64:refused", site), format!("{} {}; {}", site, other.describe(), desc())),
+    }
+}
+const FLOAT_CLASSES: [&str; 6] = ["uniform", "graded-2^+-100", "small-integers", "sparse", "constant-modulus", "common-scale"];
+
+struct RefNorms { n1: f64, n2: f64, ninf: f64 }
+fn ref_norms(a: &[f64]) -> RefNorms {
+    let mut s1 = DD::ZERO; let mut s2 = DD::ZERO; let mut mx = 0f64;
+    for &x in a { s1 = s1 + DD::from(x.abs()); s2 = s2 + DD::prod(x, x); mx = mx.max(x.abs()); }
+    RefNorms { n1: s1.f(), n2: s2.sqrt().f(), ninf: mx }
+}
+/// p-norm by the scaled formula m*(sum (|x|/m)^p)^(1/p), m an exact power of two near max|x|
+fn ref_norm_p(a: &[f64], p: f64) -> f64 {
+    let mx = a.iter().fold(0f64, |m, x| m.max(x.abs()));
+    if mx == 0.0 { return 0.0; }
+    let m = 2f64.powi(mx.log2().floor() as i32);
+    let mut s = DD::ZERO;
+    for &x in a { s = s + DD::from((x.abs() / m).powf(p)); }
+    m * s.f().powf(1.0 / p)
+}
+
+/// value check of one norm against its reference; returns the library value when usable
+fn judge_norm(st: &mut Stats, site: &str, ty: &str, n: usize, out: Outcome<f64>, truth: f64, rt: f64, desc: &dyn Fn() -> String) -> Option<f64> {
+    st.eval();
+    st.count(&format!("evals:{}:{}", site, ty));
+    match out {
+        Outcome::Ok(g) => {
+            if !(g >= 0.0) || !g.is_finite() {
+                st.violation(&format!("C15:{}:{}:negative-or-nonfinite", site, ty), format!("{} = {} (true value {}); {}", site, hexf(g), hexf(truth), desc()));
+                return None;
+            }
+            let err = (g - truth).abs();
+            if truth > 0.0 { st.max(&format!("ratio:{}:{}:err/tol", site, ty), err / (rt * truth)); }
+            if !(err <= rt * truth) {
+                st.violation(&format!("C15:{}:{}:wrong-value", site, ty),
+                    format!("{} = {} but the definition gives {} (relative error {:e} > {:e}, n={}); {}", site, hexf(g), hexf(truth), err / truth, rt, n, desc()));
+                return None;
+            }
+            Some(g)
+        }
+        other => { st.violation(&format!("C15:{}:{}:refused", site, ty), format!("{} {}; {}", site, other.describe(), desc())); None }
+    }
+}
+/// law `lhs <= rhs` up to slack*scale
+fn law_le(st: &mut Stats, law: &str, ty: &str, lhs: Option<f64>, rhs: Option<f64>, slack: f64, desc: &dyn Fn() -> String) {
+    if let (Some(l), Some(r)) = (lhs, rhs) {
+        st.count(&format!("laws:{}:{}", law, ty));
+        if r > 0.0 { st.max(&format!("ratio:law-{}:{}:excess/slack", law, ty), (l - r) / (slack * r)); }
+        if !(l <= r + slack * r) {
+            st.violation(&format!("C15:law-{}:{}", law, ty), format!("{} violated: {} > {} (slack {:e} relative); {}", law, hexf(l), hexf(r), slack, desc()));
+        }
+    }
+}
+fn law_eq(st: &mut Stats, law: &str, ty: &str, lhs: Option<f64>, rhs: Option<f64>, slack: f64, desc: &dyn Fn() -> String) {
+    if let (Some(l), Some(r)) = (lhs, rhs) {
+        st.count(&format!("laws:{}:{}", law, ty));
+        if r > 0.0 { st.max(&format!("ratio:law-{}:{}:excess/slack", law, ty), (l - r).abs() / (slack * r)); }
+        if !((l - r).abs() <= slack * r) {
+            st.violation(&format!("C15:law-{}:{}", law, ty), format!("{} violated: {} vs {} (slack {:e} relative); {}", law, hexf(l), hexf(r), slack, desc()));
+        }
+    }
+}
+
+struct F64Norms { n1: Option<f64>, n2: Option<f64>, ninf: Option<f64>, np: Vec<Option<f64>> }
+/// all norms of one f64 vector, each value-checked; ps ascending
+fn norms_of(st: &mut Stats, a: &[f64], ps: &[f64], tag: &str) -> F64Norms {
+    let n = a.len();
+    let v = mk(a);
+    let r = ref_norms(a);
+    let desc = || format!("{} v={:?}", tag, a);
+    let n1 = judge_norm(st, "norm_1", "f64", n, catch(|| v.norm_1()), r.n1, norm_rtol(n, r.n1), &desc);
+    let n2 = judge_norm(st, "norm_2", "f64", n, catch(|| v.norm_2()), r.n2, norm_rtol(n, r.n2), &desc);
+    let ninf = if n > 0 { judge_norm(st, "norm_inf", "f64", n, catch(|| v.norm_inf()), r.ninf, 0.0, &desc) } else {
+        // undefined: panic or the conventional 0 accepted
+        st.eval();
+        match catch(|| v.norm_inf()) {
+            Outcome::Ok(x) if x != 0.0 => { st.violation("C15:norm_inf-empty:f64:unconventional-value", format!("norm_inf of an empty vector returned {}", hexf(x))); }
+            Outcome::Ok(_) => st.count("undefined:empty-norm_inf-conventional-value"),
+            _ => st.count("undefined:empty-norm_inf-panicked"),
+        }
+        None
+    };
+    let mut np = vec![];
+    for &p in ps {
+        let t = ref_norm_p(a, p);
+        let d2 = || format!("p={:?} {}", p, desc());
+        np.push(judge_norm(st, "norm_p", "f64", n, catch(|| v.norm_p(p)), t, norm_rtol(n, t), &d2));
+    }
+    F64Norms { n1, n2, ninf, np }
+}
+
+fn pick_ps(rng: &mut Rng) -> Vec<f64> {
+    let mut ps = vec![1.0, 2.0, rng.int(3, 8) as f64, rng.range(1.0, 8.0), rng.range(1.0, 2.0), 8.0];
+    ps.sort_by(|a, b| a.partial_cmp(b).unwrap_or(Ordering::Equal));
+    ps
+}
+
+fn norms_f64(st: &mut Stats, rng: &mut Rng) {
+    st.next_case();
+    let n = match rng.below(8) { 0 => 0, 1 => 1, 2 => 2, 3 => MAXLEN, _ => rng.usize(0, MAXLEN) };
+    let class = rng.below(6);
+    let cname = FLOAT_CLASSES[class as usize];
+    let a = float_vec(rng, n, class);
+    let ps = pick_ps(rng);
+    let tag = format!("T=f64 class={} n={}", cname, n);
+    let na = norms_of(st, &a, &ps, &tag);
+    let ra = ref_norms(&a);
+    let slack = 3.0 * norm_rtol(n, ra.n1.max(ra.ninf));
+    let desc = || format!("{} ps={:?} v={:?}", tag, ps, a);
+    // ordering laws
+    law_le(st, "inf<=2", "f64", na.ninf, na.n2, slack, &desc);
+    law_le(st, "2<=1", "f64", na.n2, na.n1, slack, &desc);
+    for (i, p) in ps.iter().enumerate() {
+        law_le(st, "inf<=p", "f64", na.ninf, na.np[i], slack, &desc);
+        law_le(st, "p<=1", "f64", na.np[i], na.n1, slack, &desc);
+        if i + 1 < ps.len() && ps[i + 1] > *p { law_le(st, "q>p=>normq<=normp", "f64", na.np[i + 1], na.np[i], slack, &desc); }
+        if *p == 1.0 { law_eq(st, "p=1-is-norm_1", "f64", na.np[i], na.n1, slack, &desc); }
+        if *p == 2.0 { law_eq(st, "p=2-is-norm_2", "f64", na.np[i], na.n2, slack, &desc); }
+    }
+    // homogeneity: ||alpha v|| = |alpha| ||v||, alpha*v formed by the library
+    let alpha = match rng.below(5) { 0 => 2f64.powi(rng.int(-8, 8) as i32), 1 => -2f64.powi(rng.int(-8, 8) as i32), 2 => 0.0, 3 => -1.0, _ => rng.logmag(2f64.powi(-8), 8.0) };
+    {
+        let av: Vec<f64> = a.iter().map(|x| x * alpha).collect();
+        same_bits(st, "mul-scalar", catch(|| (mk(&a) * alpha).vec), &av, &|| format!("alpha={:?} {}", alpha, desc()));
+        if in_domain(&av) {
+            let tag2 = format!("{} alpha={:?} (alpha*v of v={:?})", tag, alpha, a);
+            let nb = norms_of(st, &av, &ps, &tag2);
+            let d = || format!("{} ps={:?}", tag2, ps);
+            let sc = |x: Option<f64>| x.map(|x| x * alpha.abs());
+            law_eq(st, "homogeneity-1", "f64", nb.n1, sc(na.n1), slack, &d);
+            law_eq(st, "homogeneity-2", "f64", nb.n2, sc(na.n2), slack, &d);
+            law_eq(st, "homogeneity-inf", "f64", nb.ninf, sc(na.ninf), slack, &d);
+            for i in 0..ps.len() { law_eq(st, "homogeneity-p", "f64", nb.np[i], sc(na.np[i]), slack, &d); }
+        } else { st.count("skipped:outside-magnitude-domain"); }
+    }
+    // triangle inequality: w independent / parallel (tight) / opposite / zero
+    let wk = rng.below(4);
+    let w: Vec<f64> = match wk {
+        0 => float_vec(rng, n, class),
+        1 => { let c = 2f64.powi(rng.int(-3, 3) as i32); a.iter().map(|x| x * c).collect() }
+        2 => a.iter().map(|x| -x).collect(),
+        _ => { let c2 = rng.below(6); float_vec(rng, n, c2) }
+    };
+    let tagw = format!("{} (w, kind {})", tag, wk);
+    let nw = norms_of(st, &w, &ps, &tagw);
+    {
+        let sv: Vec<f64> = (0..n).map(|i| a[i] + w[i]).collect();
+        same_bits(st, "add-ref-ref", catch(|| (&mk(&a) + &mk(&w)).vec), &sv, &|| format!("v={:?} w={:?}", a, w));
+        if in_domain(&sv) {
+            let tags = format!("{} (v+w) v={:?} w={:?}", tag, a, w);
+            let nsum = norms_of(st, &sv, &ps, &tags);
+            let rw = ref_norms(&w);
+            let sl = 3.0 * norm_rtol(n, (ra.n1 + rw.n1).max(ra.ninf + rw.ninf));
+            let d = || format!("{} ps={:?}", tags, ps);
+            let add = |x: Option<f64>, y: Option<f64>| match (x, y) { (Some(x), Some(y)) => Some(x + y), _ => None };
+            law_le(st, "triangle-1", "f64", nsum.n1, add(na.n1, nw.n1), sl, &d);
+            law_le(st, "triangle-2", "f64", nsum.n2, add(na.n2, nw.n2), sl, &d);
+            law_le(st, "triangle-inf", "f64", nsum.ninf, add(na.ninf, nw.ninf), sl, &d);
+            for i in 0..ps.len() { law_le(st, "triangle-p", "f64", nsum.np[i], add(na.np[i], nw.np[i]), sl, &d); }
+        } else { st.count("skipped:outside-magnitude-domain"); }
+    }
+    st.set_insert("float-classes:f64", cname.to_string());
+    if n >= 2 { let mut h = hash_str("norms-f64"); for x in &a { h = hmix(h, x.to_bits()); } st.nontrivial(h); }
+    // extreme magnitudes (|x| ~ 2^+-600): the property's "inf-norm <= 2-norm <= 1-norm for all data" also covers
+    // data whose squares / p-th powers are not representable although every norm is
+    if n > 0 && rng.chance(0.05) {
+        let big = rng.bool();
+        let e: Vec<f64> = a.iter().map(|x| (if x.signum() == 0.0 { 1.0 } else { x.signum() }) * (if big { 2f64.powi(600) } else { 2f64.powi(-600) }) * (1.0 + x.abs().min(1.0))).collect();
+        let ni = e.iter().fold(0f64, |m, x| m.max(x.abs()));
+        let n1: f64 = e.iter().map(|x| x.abs()).sum();
+        let p = *rng.pick(&[2.0, 3.0, 8.0]);
+        for (name, out) in [("norm_2", catch(|| mk(&e).norm_2())), ("norm_p", catch(|| mk(&e).norm_p(p)))] {
+            st.eval();
+            match out {
+                Outcome::Ok(g) => {
+                    if !g.is_finite() || !(g >= ni * (1.0 - 1e-12)) || !(g <= n1 * (1.0 + 1e-12)) {
+                        st.violation(&format!("C15:{}:f64:range-{}", name, if big { "overflow" } else { "underflow" }), format!("{}{} = {:e} violates inf-norm {:e} <= norm <= 1-norm {:e}; v={:?}", name, if name == "norm_p" { format!("({})", p) } else { String::new() }, g, ni, n1, e));
+                    } else { st.count("extreme-magnitude-norm-laws-held"); }
+                }
+                o => st.violation(&format!("C15:{}:f64:panic", name), format!("{}; v={:?}", o.describe(), e)),
+            }
+        }
+    }
+}
+
+fn cmod_dd(z: &Cmplx) -> DD { (DD::prod(z.real, z.real) + DD::prod(z.imag, z.imag)).sqrt() }
+fn ref_cnorms(a: &[Cmplx]) -> (f64, f64) {
+    let mut s = DD::ZERO; let mut mx = 0f64;
+    for z in a { let m = cmod_dd(z); s = s + m; mx = mx.max(m.f()); }
+    (s.f(), mx)
+}
+/// norm_1 (generic, returned as a complex number with zero imaginary part) and norm_inf of a complex vector
+fn cnorms_of(st: &mut Stats, a: &[Cmplx], tag: &str) -> (Option<f64>, Option<f64>) {
+    let n = a.len();
+    let v = mk(a);
+    let (r1, rinf) = ref_cnorms(a);
+    let desc = || format!("{} v={:?}", tag, a);
+    let o1 = catch(|| v.norm_1());
+    if let Outcome::Ok(z) = &o1 {
+        if z.imag != 0.0 { st.violation("C15:norm_1:Complex<f64>:nonzero-imaginary-part", format!("norm_1 = {:?}; {}", z, desc())); }
+    }
+    let n1 = judge_norm(st, "norm_1", "Complex<f64>", n, o1.map_val(|z| z.real), r1, norm_rtol(n, r1) + MOD_TOL, &desc);
+    let ninf = if n > 0 { judge_norm(st, "norm_inf", "Complex<f64>", n, catch(|| v.norm_inf()), rinf, MOD_TOL, &desc) } else {
+        st.eval();
+        match catch(|| v.norm_inf()) {
+            Outcome::Ok(x) if x != 0.0 => { st.violation("C15:norm_inf-empty:Complex<f64>:unconventional-value", format!("norm_inf of an empty vector returned {}", hexf(x))); }
+            Outcome::Ok(_) => st.count("undefined:empty-norm_inf-conventional-value"),
+            _ => st.count("undefined:empty-norm_inf-panicked"),
+        }
+        None
+    };
+    (n1, ninf)
+}
+trait MapVal<R> { fn map_val<S>(self, f: impl FnOnce(R) -> S) -> Outcome<S>; }
+impl<R> MapVal<R> for Outcome<R> {
+    fn map_val<S>(self, f: impl FnOnce(R) -> S) -> Outcome<S> {
+        match self {
+            Outcome::Ok(r) => Outcome::Ok(f(r)),
+            Outcome::Panic { msg, loc } => Outcome::Panic { msg, loc },
+            Outcome::Overflow => Outcome::Overflow,
+            Outcome::Budget => Outcome::Budget,
+        }
+    }
+}
+
+fn norms_cmplx(st: &mut Stats, rng: &mut Rng) {
+    st.next_case();
+    let n = match rng.below(8) { 0 => 0, 1 => 1, 2 => 2, 3 => MAXLEN, _ => rng.usize(0, MAXLEN) };
+    let class = rng.below(6);
+    let cname = FLOAT_CLASSES[class as usize];
+    let cim = if rng.bool() { class } else { rng.below(6) };
+    let (re, im) = (float_vec(rng, n, class), float_vec(rng, n, cim));
+    let a: Vec<Cmplx> = (0..n).map(|i| Cmplx::new(re[i], im[i])).collect();
+    let tag = format!("T=Complex<f64> class={} n={}", cname, n);
+    let (r1, _rinf) = ref_cnorms(&a);
+    let (n1, ninf) = cnorms_of(st, &a, &tag);
+    let slack = 3.0 * (norm_rtol(n, r1) + MOD_TOL);
+    let desc = || format!("{} v={:?}", tag, a);
+    law_le(st, "inf<=1", "Complex<f64>", ninf, n1, slack, &desc);
+    // homogeneity with a complex factor (|alpha| from the double-double modulus)
+    let alpha = match rng.below(4) { 0 => Cmplx::new(0.0, 2f64.powi(rng.int(-8, 8) as i32)), 1 => Cmplx::new(-1.0, 0.0), 2 => Cmplx::new(0.0, 0.0), _ => Cmplx::new(rng.logmag(0.01, 8.0), rng.logmag(0.01, 8.0)) };
+    let am = cmod_dd(&alpha).f();
+    if let Outcome::Ok(av) = catch(|| (mk(&a) * alpha).vec) {
+        let flat: Vec<f64> = av.iter().flat_map(|z| [z.real, z.imag]).collect();
+        if av.len() == n && in_domain(&flat) {
+            let tag2 = format!("{} alpha={:?} (alpha*v of v={:?})", tag, alpha, a);
+            let (m1, minf) = cnorms_of(st, &av, &tag2);
+            let d = || tag2.clone();
+            law_eq(st, "homogeneity-1", "Complex<f64>", m1, n1.map(|x| x * am), slack, &d);
+            law_eq(st, "homogeneity-inf", "Complex<f64>", minf, ninf.map(|x| x * am), slack, &d);
+        } else { st.count("skipped:outside-magnitude-domain"); }
+    }
+    // triangle inequality
+    let wk = rng.below(3);
+    let w: Vec<Cmplx> = match wk {
+        0 => { let (x, y) = (float_vec(rng, n, class), float_vec(rng, n, class)); (0..n).map(|i| Cmplx::new(x[i], y[i])).collect() }
+        1 => { let c = 2f64.powi(rng.int(-3, 3) as i32); a.iter().map(|z| Cmplx::new(z.real * c, z.imag * c)).collect() }
+        _ => a.iter().map(|z| Cmplx::new(-z.real, -z.imag)).collect(),
+    };
+    let (w1, winf) = cnorms_of(st, &w, &format!("{} (w, kind {})", tag, wk));
+    let sv: Vec<Cmplx> = (0..n).map(|i| Cmplx::new(a[i].real + w[i].real, a[i].imag + w[i].imag)).collect();
+    st.eval();
+    match catch(|| (&mk(&a) + &mk(&w)).vec) {
+        Outcome::Ok(g) if g.len() == n && g.iter().zip(&sv).all(|(x, y)| x.real == y.real && x.imag == y.imag) => {}
+        other => st.violation("C15:add-ref-ref:Complex<f64>:wrong-value", format!("&v+&w gave {:?}, elementwise IEEE result is {:?}; v={:?} w={:?}", other.ok(), sv, a, w)),
+    }
+    let flat: Vec<f64> = sv.iter().flat_map(|z| [z.real, z.imag]).collect();
+    if in_domain(&flat) {
+        let tags = format!("{} (v+w) v={:?} w={:?}", tag, a, w);
+        let (s1, sinf) = cnorms_of(st, &sv, &tags);
+        let (rw1, _) = ref_cnorms(&w);
+        let sl = 3.0 * (norm_rtol(n, r1 + rw1) + MOD_TOL);
+        let d = || tags.clone();
+        let add = |x: Option<f64>, y: Option<f64>| match (x, y) { (Some(x), Some(y)) => Some(x + y), _ => None };
+        law_le(st, "triangle-1", "Complex<f64>", s1, add(n1, w1), sl, &d);
+        law_le(st, "triangle-inf", "Complex<f64>", sinf, add(ninf, winf), sl, &d);
+    } else { st.count("skipped:outside-magnitude-domain"); }
+    st.set_insert("float-classes:Complex<f64>", cname.to_string());
+    if n >= 2 { let mut h = hash_str("norms-cmplx"); for z in &a { h = hmix(hmix(h, z.real.to_bits()), z.imag.to_bits()); } st.nontrivial(h); }
+}
+
+// ---------------------------------------------------------------- linspace / powspace
+fn space_case(st: &mut Stats, rng: &mut Rng) {
+    st.next_case();
+    let n = match rng.below(10) { 0 => 2, 1 => 3, 2 => MAXLEN, _ => rng.usize(2, MAXLEN) };
+    let k = 2f64.powi(rng.int(-60, 60) as i32);
+    let (a, b) = match rng.below(7) {
+        0 => (rng.int(-9, 9) as f64, rng.int(-9, 9) as f64),
+        1 => (rng.sym(), rng.sym()),
+        2 => (rng.sym() * k, rng.sym() * k),
+        3 => { let x = rng.sym() * k; (x, x) }
+        4 => (0.0, rng.logmag(1e-3, 1e3)),
+        5 => { let x = rng.logmag(0.5, 2.0); (x, x * (1.0 + rng.sym() * 2f64.powi(-rng.int(1, 40) as i32))) }
+        _ => (rng.logmag(1e-6, 1e6), rng.logmag(1e-6, 1e6)),
+    };
+    let pw = rng.bool();
+    let p = if !pw { 1.0 } else { match rng.below(5) { 0 => 1.0, 1 => 2.0, 2 => 0.5, 3 => 3.0, _ => rng.range(0.25, 8.0) } };
+    let site = if pw { "powspace" } else { "linspace" };
+    let desc = || format!("{}(a={}, b={}, n={}{})", site, hexf(a), hexf(b), n, if pw { format!(", p={:?}", p) } else { String::new() });
+    // undefined n < 2: call and ignore
+    if rng.chance(0.03) {
+        let m = rng.usize(0, 1);
+        let _ = catch(|| if pw { Vector::<f64>::powspace(a, b, m, p).vec } else { Vector::<f64>::linspace(a, b, m).vec });
+        st.count("undefined:space-n<2");
+    }
+    st.eval();
+    st.count(&format!("evals:{}:f64", site));
+    let g = match catch(|| if pw { Vector::<f64>::powspace(a, b, n, p).vec } else { Vector::<f64>::linspace(a, b, n).vec }) {
+        Outcome::Ok(g) => g,
+        other => { st.violation(&format!("C15:{}:f64:refused", site), format!("{} ; {}", other.describe(), desc())); return; }
+    };
+    if g.len() != n { st.violation(&format!("C15:{}:f64:wrong-length", site), format!("length {} ; {}", g.len(), desc())); return; }
+    let mx = a.abs().max(b.abs());
+    let tol = SPACE_K * (4.0 * U * (b - a).abs() + U * mx);
+    if !(g[0] == a) { st.violation(&format!("C15:{}:f64:first-not-a", site), format!("first element {} ; {}", hexf(g[0]), desc())); }
+    let elast = (g[n - 1] - b).abs();
+    if tol > 0.0 { st.max(&format!("ratio:{}:last-minus-b/tol", site), elast / tol); }
+    if !(elast <= tol) { st.violation(&format!("C15:{}:f64:last-not-b", site), format!("last element {} differs from b by {:e} > {:e}; {}", hexf(g[n - 1]), elast, tol, desc())); }
+    // every element against the definition a + (b-a)*(i/(n-1))^p
+    let up = b > a;
+    let mut prev_true = DD::from(a);
+    for i in 0..n {
+        let t = DD::from(i as f64) / DD::from((n - 1) as f64);
+        let tp = if !pw || p == 1.0 { t } else if p == 2.0 { t * t } else if p == 3.0 { t * t * t } else if p == 0.5 { t.sqrt() } else { DD::from(t.f().powf(p)) };
+        let truth = DD::from(a) + (DD::from(b) - DD::from(a)) * tp;
+        let err = (DD::from(g[i]) - truth).f().abs();
+        if tol > 0.0 { st.max(&format!("ratio:{}:element-err/tol", site), err / tol); }
+        if !(err <= tol) {
+            st.violation(&format!("C15:{}:f64:wrong-element", site), format!("element {} = {} but the definition gives {} (error {:e} > {:e}); got {:?}; {}", i, hexf(g[i]), hexf(truth.f()), err, tol, g, desc()));
+            break;
+        }
+        if i > 0 {
+            let weak = if a == b { g[i] == g[i - 1] } else if up { g[i] >= g[i - 1] } else { g[i] <= g[i - 1] };
+            let inc = (truth - prev_true).f().abs();
+            let strict_due = inc >= STRICT_K * U * mx && a != b;
+            let strict = if up { g[i] > g[i - 1] } else { g[i] < g[i - 1] };
+            if !weak || (strict_due && !strict) {
+                st.violation(&format!("C15:{}:f64:not-monotone", site), format!("elements {}..{}: {} then {} (true increment {:e}); got {:?}; {}", i - 1, i, hexf(g[i - 1]), hexf(g[i]), inc, g, desc()));
+                break;
+            }
+            if strict_due { st.count("spaces:strict-steps-checked"); }
+        }
+        prev_true = truth;
+    }
+    st.nontrivial(hmix(hmix(hmix(hmix(hash_str(site), a.to_bits()), b.to_bits()), n as u64), p.to_bits()));
+    st.sample(|| desc());
+}
+
+// ---------------------------------------------------------------- driver
+fn pick_len(rng: &mut Rng) -> usize { match rng.below(10) { 0 => 0, 1 => 1, 2 => 2, 3 => MAXLEN, _ => rng.usize(0, MAXLEN) } }
+fn pick_fl(rng: &mut Rng) -> u32 { *rng.pick(&[0u32, 0, 1, 2, 2]) }
+
+fn random_unit(st: &mut Stats, rng: &mut Rng, u: u64) {
+    // histories, one per element type
+    let steps = |rng: &mut Rng| if rng.chance(0.15) { rng.usize(60, 160) } else { rng.usize(1, 48) };
+    let s = steps(rng); history::<Rat>(st, rng, s);
+    let s = steps(rng); history::<i64>(st, rng, s);
+    let s = steps(rng); history::<f64>(st, rng, s);
+    let s = steps(rng); history::<Cmplx>(st, rng, s);
+    let s = steps(rng); history::<CRat>(st, rng, s);
+    let s = steps(rng); history::<CxR>(st, rng, s);
+    // element-wise arithmetic, dot, abs, norm_1, conj, real
+    let (n, fl) = (pick_len(rng), pick_fl(rng));
+    arith_clone::<Rat>(st, rng, n, fl); arith_copy::<Rat>(st, rng, n, fl); arith_neg::<Rat>(st, rng, n, fl); arith_signed::<Rat>(st, rng, n, fl);
+    let (n, fl) = (pick_len(rng), pick_fl(rng));
+    arith_clone::<CRat>(st, rng, n, fl); arith_copy::<CRat>(st, rng, n, fl); arith_neg::<CRat>(st, rng, n, fl); arith_signed::<CRat>(st, rng, n, fl);
+    let (n, fl) = (pick_len(rng), pick_fl(rng));
+    arith_clone::<CxR>(st, rng, n, fl); arith_neg::<CxR>(st, rng, n, fl); conj_real_exact(st, rng, n, fl);
+    let (n, fl) = (pick_len(rng), pick_fl(rng));
+    arith_clone::<f64>(st, rng, n, fl); arith_copy::<f64>(st, rng, n, fl); arith_neg::<f64>(st, rng, n, fl); arith_signed::<f64>(st, rng, n, fl); left_mul_f64(st, rng, n, fl);
+    let (n, fl) = (pick_len(rng), pick_fl(rng));
+    arith_clone::<Cmplx>(st, rng, n, fl); arith_copy::<Cmplx>(st, rng, n, fl); arith_neg::<Cmplx>(st, rng, n, fl); conj_real_abs_cmplx(st, rng, n, fl);
+    // range reductions: even units sweep every (start,end) of a short vector, odd units random ranges up to length 64
+    let full = u % 2 == 0;
+    let ty = (u / 2) % 4;
+    let n = if full { rng.usize(0, 24) } else { pick_len(rng) };
+    let fl = *rng.pick(&[0u32, 1, 1, 2]);
+    match ty {
+        0 => reductions::<Rat>(st, rng, n, full, fl),
+        1 => reductions::<CRat>(st, rng, n, full, fl),
+        2 => reductions::<f64>(st, rng, n, full, fl),
+        _ => reductions::<Cmplx>(st, rng, n, full, fl),
+    }
+    // numerical norms and their laws, generated sequences
+    norms_f64(st, rng);
+    norms_cmplx(st, rng);
+    space_case(st, rng);
+    space_case(st, rng);
+}
+
+pub fn run(ctx: &Ctx) -> Report {
+    let nsweep = SWEEP_OPS * SWEEP_OPS;
+    // all lengths 0..=24 once per type with every range (deterministic lengths, seeded data)
+    let nlen = 25 * 4;
+    let nrand = ctx.vol(30_000, 500_000);
+    let stats = par_run(ctx, TAG, nsweep + nlen + nrand, |u, rng, st| {
+        if u < nsweep { sweep_unit(st, u); }
+        else if u < nsweep + nlen {
+            let k = u - nsweep;
+            let (n, ty) = ((k / 4) as usize, k % 4);
+            for fl in [0u32, 1] {
+                match ty {
+                    0 => reductions::<Rat>(st, rng, n, true, fl),
+                    1 => reductions::<CRat>(st, rng, n, true, fl),
+                    2 => reductions::<f64>(st, rng, n, true, fl),
+                    _ => reductions::<Cmplx>(st, rng, n, true, fl),
+                }
+            }
+        } else { random_unit(st, rng, u - nsweep - nlen); }
+    });
+    let mut rep = Report::new(stats,
+        "cases: (1) all 11^4 sequences of {push,push_front,insert(mid),pop,swap(first,last),resize(+2),resize(/2),assign,clear,sort,find} from 3 start lists over Rat, in lock step with a plain list; \
+         (2) random histories (1..160 steps, length kept <= 64, tiny value domain so duplicates abound) of push/push_front/insert/pop/swap/resize/assign/clear/sort/sort_by(3 comparators)/find/index write/index read/clone from empty/create/new/zeros/ones, per type Rat,i64,f64,Complex<f64>,CRat,Complex<Rat> (each type only the operations its trait bounds admit); vec field, size() and return values compared after every step; \
+         (3) the 16 arithmetic impls + f64*vector, dot, abs, norm_1, conj, real on random vectors of length 0..64 (boundary lengths 0,1,2,64 favoured) through Rat, CRat, Complex<Rat> (Clone-only impls), f64 and Complex<f64> on small dyadic data with an exactness certificate; size mismatches must be rejected; \
+         (4) sum_slice/product_slice for every (start,end) in [0,len+1]^2 (valid: exact value; start>end or end>=len: must panic) for every len 0..24 and type Rat,CRat,f64,Complex<f64>, plus random ranges up to len 64, sum()/product(); \
+         (5) norm_1/norm_2/norm_p(p in [1,8], 6 values per vector)/norm_inf of f64 and norm_1/norm_inf of Complex<f64> vectors (6 data classes incl. magnitudes graded over 2^+-100) against double-double references, with non-negativity, homogeneity, triangle inequality (independent/parallel/opposite w) and inf<=2<=1, inf<=p<=1, monotonicity in p; \
+         (6) linspace/powspace with n in 2..64: first==a, last~b, every element against the definition, monotone. \
+         non-trivial: vectors of length >= 2 (histories: >= 3 editing steps and a length >= 2 reached; sequences: every n >= 2 case); distinct = distinct hashes of (part, type, literal data / history states)");
+    rep.assumptions = vec![
+        "generic dot is the bilinear sum of a_i*b_i (no conjugation), as coded and documented in the source".into(),
+        "find(x) = first index of an element equal to x, else len-1 (source comment); find/sum/product/norm_inf on an empty vector, pop on empty and linspace/powspace with n<2 are undefined: panic or conventional value (0, 1) accepted".into(),
+        "f64 / Complex<f64> exact checks are made only on small dyadic data for which the generator certifies every intermediate exactly representable (integers*2^-s below 2^50, any evaluation order); otherwise the case is skipped and counted".into(),
+        "numerical norms are judged for entries that are 0 or of magnitude within [2^-118, 2^118] (no overflow/underflow of |x|^8 or of 64-term sums) with fixed tolerances; for entries of magnitude ~2^+-600 only finiteness and inf-norm <= norm_2/norm_p <= 1-norm are judged".into(),
+        "tolerances (fixed): norms NORM_K*(n+8+|ln N|)*u relative with NORM_K=128; complex modulus 256u; norm_inf(f64) exact; laws with 3x the value tolerance as slack; linspace/powspace elements 128*(4u|b-a|+u*max(|a|,|b|)); strict monotonicity demanded when the true step >= 32u*max(|a|,|b|)".into(),
+        "abs()/norm_1() over the harness type CRat use its Signed::abs (|re|+|im|) by definition; Complex<f64> abs is the modulus sqrt(re^2+im^2)".into(),
+        "Rat overflow in model or library => case skipped (counted), never judged".into(),
+    ];
+    rep.min_nontrivial = if ctx.quick() { 100_000 } else { 2_000_000 };
+    let mut ex = J::obj();
+    ex.set("exhaustive_parts", J::Arr(vec![
+        J::s("all 11^4 = 14641 four-step edit sequences from each of 3 start lists (Rat)"),
+        J::s("every (start,end) in [0,len+1]^2 for every len 0..24, types Rat/CRat/f64/Complex<f64>, sum_slice and product_slice"),
+    ]));
+    rep.extra = ex;
+    rep
 }
